@@ -122,6 +122,7 @@ type imageSpec struct {
 	repo, tag string
 	layers    []*layerSpec // manifest order
 	published bool         // false: the reference does not exist in the registry
+	pinOf     *imageSpec   // != nil: a digest-pinned reference ("repo[:tag]@digest") to that image
 	im        *l2.Image
 	ref       reference.Spec
 }
@@ -188,12 +189,38 @@ type world struct {
 // (non-eStargz) layer in between.
 func composeImages(rng *prng.R, p *pool, nImg, maxLayers int, tagSalt string) []*imageSpec {
 	var ims []*imageSpec
+	// Two times out of three the first two images are two TAGS OF ONE REPOSITORY with
+	// different layer sets (some layers shared, some not): the references differ only in the
+	// tag, so everything that is kept per reference must really be keyed by the whole reference.
+	sameRepo := nImg >= 2 && rng.Chance(2, 3)
 	for i := 0; i < nImg; i++ {
 		n := rng.Range(1, maxLayers)
 		perm := rng.Perm(len(p.esgz))
 		im := &imageSpec{repo: fmt.Sprintf("c16/img%d", i), tag: "v" + tagSalt, published: true}
-		for _, j := range perm[:n] {
-			im.layers = append(im.layers, p.esgz[j])
+		if sameRepo && i < 2 {
+			im.repo, im.tag = "c16/app", fmt.Sprintf("v%s-%c", tagSalt, 'a'+i)
+		}
+		if sameRepo && i == 1 {
+			// share a (possibly empty) part of the first tag's layers, then add others, so that
+			// the two layer sets differ in both directions whenever there is room
+			first := ims[0]
+			for _, l := range first.layers {
+				if l.esgz && rng.Bool() && len(im.layers) < n-1 {
+					im.layers = append(im.layers, l)
+				}
+			}
+			for _, j := range perm {
+				if len(im.layers) >= n && len(im.layers) > 0 && !sameLayerSet(im.layers, first.layers) {
+					break
+				}
+				if first.find(p.esgz[j].built.TOCDigest) == nil {
+					im.layers = append(im.layers, p.esgz[j])
+				}
+			}
+		} else {
+			for _, j := range perm[:n] {
+				im.layers = append(im.layers, p.esgz[j])
+			}
 		}
 		if len(p.plain) > 0 && rng.Chance(1, 4) {
 			at := rng.Intn(len(im.layers) + 1)
@@ -202,13 +229,66 @@ func composeImages(rng *prng.R, p *pool, nImg, maxLayers int, tagSalt string) []
 		}
 		ims = append(ims, im)
 	}
+	if sameRepo && rng.Chance(2, 3) {
+		// a digest-pinned reference to one of the tags ("repo@sha256:<manifest digest>"): a
+		// third reference into the same repository with the same image as that tag. An
+		// external TOC is located through the tag ("<tag>-esgztoc"), so such layers cannot be
+		// resolved through a digest-pinned reference at all: only images without them.
+		var cand []*imageSpec
+		for _, im := range ims[:2] {
+			ok := true
+			for _, l := range im.layers {
+				if l.built.ExternalTOC != nil {
+					ok = false
+				}
+			}
+			if ok {
+				cand = append(cand, im)
+			}
+		}
+		if len(cand) > 0 {
+			t := cand[rng.Intn(len(cand))]
+			ims = append(ims, &imageSpec{repo: t.repo, published: true, pinOf: t, layers: t.layers})
+		}
+	}
 	return ims
+}
+
+func sameLayerSet(a, b []*layerSpec) bool {
+	in := func(l *layerSpec, s []*layerSpec) bool {
+		for _, x := range s {
+			if x == l {
+				return true
+			}
+		}
+		return false
+	}
+	for _, l := range a {
+		if l.esgz && !in(l, b) {
+			return false
+		}
+	}
+	for _, l := range b {
+		if l.esgz && !in(l, a) {
+			return false
+		}
+	}
+	return true
 }
 
 // newWorld publishes the images in a fresh registry and builds a fresh LayerManager.
 func newWorld(r *vf.Run, root string, ims []*imageSpec, wc worldCfg) (*world, error) {
+	return newWorldF(r, root, ims, wc, nil)
+}
+
+// newWorldF: refOK (optional) must accept the string of a digest-pinned reference (the fuse
+// stage needs references whose base64 form is one path component).
+func newWorldF(r *vf.Run, root string, ims []*imageSpec, wc worldCfg, refOK func(string) bool) (*world, error) {
 	w := &world{r: r, reg: memreg.New(), images: ims, root: root, cfg: wc}
 	for _, im := range ims {
+		if im.pinOf != nil {
+			continue // after its target is published
+		}
 		ref, err := reference.Parse(regHost + "/" + im.repo + ":" + im.tag)
 		if err != nil {
 			return nil, err
@@ -226,6 +306,23 @@ func newWorld(r *vf.Run, root string, ims []*imageSpec, wc worldCfg) (*world, er
 			return nil, err
 		}
 		im.im = pub
+	}
+	for _, im := range ims {
+		if im.pinOf == nil {
+			continue
+		}
+		// "repo@digest"; if that form is not acceptable, "repo:<tag>@digest" with some tag
+		// (the tag of such a reference is ignored by the resolver, the digest decides)
+		d := im.pinOf.im.ManifestDesc.Digest.String()
+		str := regHost + "/" + im.repo + "@" + d
+		for i := 0; refOK != nil && !refOK(str) && i < 64; i++ {
+			str = regHost + "/" + im.repo + ":p" + strings.Repeat("x", i) + "@" + d
+		}
+		ref, err := reference.Parse(str)
+		if err != nil {
+			return nil, err
+		}
+		im.ref, im.im = ref, im.pinOf.im
 	}
 	cfg := config.Config{}
 	cfg.NoPrometheus = true // the metrics namespace is process-global: many managers live in one process
